@@ -32,6 +32,33 @@ CLAIMED = {
             "Codec.encode sequence-number choice (proved in C05), Journaler contracts, hooks do not touch connection "
             "state, transport calls do not raise; trusted: pyvc (path witnesses replayed on CPython), z3",
             "contract-based deductive verification: VCs generated from the AST of the real functions, discharged by z3"),
+    "C11": ("proof",
+            "Deductive proof of the sentences of the statement as per-call clauses on the real _process_message + "
+            "_validate_integrity (every connected state the code enters x role x message type x header defect: BeginString "
+            "wrong, CompIDs missing / wrong / swapped, MsgSeqNum missing / not a number / too low; sequence numbers "
+            "unbounded), on send_msg (every state x role x type: refusal consumes nothing) and on disconnect (every state x "
+            "target x logout text: reported exactly once, idempotent), plus inertness of _process_message after a disconnect. "
+            "All loop-free, so no bound. Two genuine defects found by the first run were repaired (fix: commits 9ef6625, "
+            "dabde37). 'Arbitrary further input after the disconnect' follows from the per-call clauses by induction "
+            "(not mechanised).",
+            "DESIGN.md 4/C11",
+            "assumed: LOGON_INITIAL_SENT implies role INITIATOR (its only assignment site is proved to set both), decoder "
+            "always supplies BeginString, _process_resend / encode / journal contracts, hooks do not touch connection "
+            "state, transport calls do not raise; trusted: pyvc (path witnesses replayed on CPython), z3",
+            "contract-based deductive verification: VCs generated from the AST of the real functions, discharged by z3"),
+    "C12": ("proof",
+            "Deductive proof of the watchdog as a step function: one iteration of the real heartbeat_timer_task loop body "
+            "(send_test_req, send_msg, disconnect inlined) over every state, clock value (reals), heartbeat interval H >= 1 "
+            "and pending TestReqID; send_test_req (single outstanding); inbound TestRequest / Heartbeat through the real "
+            "_process_message (answered once with the same TestReqID; echo clears, wrong id -> Logout + disconnect, plain "
+            "heartbeat keeps pending). Timing sentences (TestRequest after ~1 interval, dead peer disconnected within "
+            "3H+1+3eps, live / answering peer never disconnected) are lemmas in linear real arithmetic over those clauses "
+            "for all H and all tick jitter eps in [0,1]; their composition over the tick sequence is by hand (not mechanised).",
+            "DESIGN.md 4/C12",
+            "assumed: A-TICK (ticks at most 1+eps apart), A-CLOCK (clock non-decreasing, >= 1, stored clocks read earlier), "
+            "floats as reals, encode / journal contracts, hooks and transport as in C05; trusted: pyvc (path witnesses "
+            "replayed on CPython with a patched clock), z3",
+            "contract-based deductive verification: VCs generated from the AST of the real functions, discharged by z3"),
     "C05": ("proof",
             "Deductive proof of the per-call clauses of the statement on the real AsyncFIXConnection.send_msg (all 19 "
             "states x roles x message classes, unbounded integers), on the sequence-number choice of the real Codec.encode "
